@@ -6,9 +6,18 @@ package staticroute
 
 //@ func Handler4
 //@   implements handler.Handler4
-//@   requires routes_ok(routes)
 //@   modifies everything
 //@   ensures ret0 == resp && !ret1
 //@   ensures[C17:routes-when-configured] len(routes) > 0 ==> has(resp.Options, 121)
 //@   ensures[C17:routes-only-when-configured] len(routes) == 0 ==> ((has(resp.Options, 121) <==> old(has(resp.Options, 121))) && resp.Options[121] == old(resp.Options[121]))
 //@   ensures[C17:other-options-untouched] forall k uint8: k != 121 ==> ((has(resp.Options, k) <==> old(has(resp.Options, k))) && resp.Options[k] == old(resp.Options[k]))
+
+// Route.Marshal (called by Options.Update when the option is inserted) writes
+// Dest.IP.To4()[:(ones+7)/8] and Router.To4(): every route must be IPv4 with a 32-bit mask.
+//@ global routes written-by setup4
+//@ pure func route_ok(r *dhcpv4.Route) bool = r != nil && r.Dest != nil && len(r.Dest.IP) == 4 && len(r.Dest.Mask) == 4 && isv4(r.Router)
+//@ plugin-invariant[setup4,Handler4] forall i in 0..len(routes): route_ok(routes[i])
+
+//@ func setup4
+//@   modifies everything
+//@   loop 1: invariant forall i in 0..len(routes): route_ok(routes[i])
